@@ -17,7 +17,7 @@ open Jasm Jasm.FrontEnd
 /-- a `DerefSpec` with plain, non-empty, comma-free components is in both fragments -/
 theorem derefLit_of_spec (d : DerefSpec) (h : derefLit d.fields Times.one = true) :
     litO d.toPat = true := by
-  simpa [DerefSpec.toPat, litO] using h
+  simp [DerefSpec.toPat, litO, h]
 
 /-- **C06 (whole operation)**: a rule file whose pattern is any list of items of the source fragment -
 in particular items with `$deref` operands written `{$deref: {main_reg: a, register_multiplier: b,
